@@ -27,6 +27,15 @@ class Frame:
         self.entry_node = None
         self.exit_node = None
 
+    @property
+    def owner_id(self):
+        """id of the frame this frame's code belongs to: its own, or - for an extracted helper expanded into its caller
+        (core.mark_unknown_helpers) - the nearest enclosing frame that is not such a helper"""
+        f = self
+        while f.parent is not None and getattr(f.fn, "unknown_helper", False):
+            f = f.parent
+        return f.id
+
     def chain(self):
         out = []
         f = self
